@@ -19,9 +19,9 @@ PROPS = {
     "C03": dict(module="MRB.Props.C03", level="proof", profiles=[], engines=["conc"], gen_items=["concAcc", "wiring", "skeletons"],
                 trusted=["release/acquire fragment of C11 in view-based operational form (exact for single-writer locations)", "compiler and hardware respect it",
                          "user code accesses only the granted window"]),
-    "C10": dict(module="MRB.Props.C10", level="proof", profiles=[], engines=["conc"], gen_items=["concAcc", "skeletons", "loops"],
+    "C10": dict(module="MRB.Props.C10", level="proof", profiles=[], engines=["conc"], gen_items=["concAcc", "skeletons", "loops", "check"],
                 trusted=["OS scheduling and real time are not modelled"]),
-    "C04": dict(module="MRB.Props.C04", level="proof", profiles=[prof("order", 500)],
+    "C04": dict(module="MRB.Props.C04", level="proof", profiles=[prof("order", 500)], engines=["conc"],
                 gen_items=["advanceLocal", "advance", "check", "prodAvail", "workAvail", "consAvail", "wiring", "skeletons"], trusted=SEQ_TRUST),
     "C05": dict(module="MRB.Props.C05", level="proof", profiles=[prof("avail", 500)],
                 gen_items=["check", "prodAvail", "workAvail", "consAvail", "sliceAvail", "sliceMultipleOf", "skeletons"], trusted=SEQ_TRUST),
